@@ -358,7 +358,10 @@ class Run:
                 else:
                     info['axioms'] = sorted({a for _t, (_o, axs) in res.items() for a in axs})
         self.ties.append(info)
-        if info['status'] != 'intact':
+        if info['status'] != 'intact' and os.environ.get('VERIF_NO_ESCALATE'):
+            # (detection sweeps over seeded changes measure the quick-size streams alone)
+            print(f'[{self.pid}] source tie {"/".join(units)} broken ({info["status"]}); escalation disabled by VERIF_NO_ESCALATE')
+        elif info['status'] != 'intact':
             self.escalated = True
             self.impl_timeout = 10.0
             print(f'[{self.pid}] source tie {"/".join(units)} broken ({info["status"]}): {"; ".join(map(str, info["detail"]))[:400]}')
